@@ -707,10 +707,14 @@ impl AST {
                     ops.push(Op::Render, pos);
                 }
             }
-            TemplatePart::Expression(expr) => {
+            TemplatePart::Expression(mut expr) => {
                 if place_holder {
                     unreachable!();
                 } else {
+                    // The expressions of a template are only parsed here,
+                    // after the statements have been rewritten. Their import
+                    // and include paths are relative to the same file.
+                    Rewriter::new(root).walk_expression(&mut expr);
                     Self::translate_expr(expr, ops, root);
                     ops.push(Op::Render, pos);
                 }
